@@ -204,6 +204,21 @@ func randProg(r *rand.Rand) sysProg {
 			p = append(p, st2)
 		}
 	}
+	// optional third store chained on the second one (a fourth stage: store -> store -> store -> mapper)
+	has3 := has2 && len(st2.Inputs) == 2 && r.Intn(3) == 0
+	var st3 sysMod
+	if has3 {
+		mode := []string{"get", "deltas"}[r.Intn(2)]
+		num2 := isNumeric(st2.Body.Pol)
+		var vt []vterm
+		if mode == "get" {
+			vt = []vterm{{T: "get", I: 1, C: 1, Key: vmKeys[r.Intn(4)], How: "last", Num: num2}, {T: "in", I: 0, C: 1}, {T: "const", C: 2}}
+		} else {
+			vt = []vterm{{T: "dcount", I: 1, C: 1}, {T: "dsum", I: 1, C: 1, Num: num2}, {T: "in", I: 0, C: 1}}
+		}
+		st3 = mkStore("st3", []ainput{{K: "map", V: "m_src"}, {K: "store", V: "st2", Mode: mode}}, vt)
+		p = append(p, st3)
+	}
 	out := sysMod{Name: "out", Kind: "map", Init: []uint64{0, 0, 3, 5, 12}[r.Intn(5)], Filter: []any{}}
 	out.Body = body0("map")
 	out.Inputs = []ainput{{K: "map", V: "m_src"}}
@@ -233,6 +248,11 @@ func randProg(r *rand.Rand) sysProg {
 		pos2 := len(out.Inputs)
 		out.Inputs = append(out.Inputs, ainput{K: "store", V: "st2", Mode: "get"})
 		out.Body.Terms = append(out.Body.Terms, vterm{T: "get", I: pos2, C: 3, Key: vmKeys[r.Intn(4)], How: "last", Num: isNumeric(st2.Body.Pol)})
+	}
+	if has3 {
+		pos3 := len(out.Inputs)
+		out.Inputs = append(out.Inputs, ainput{K: "store", V: "st3", Mode: "get"})
+		out.Body.Terms = append(out.Body.Terms, vterm{T: "get", I: pos3, C: 7, Key: vmKeys[r.Intn(4)], How: "last", Num: isNumeric(st3.Body.Pol)})
 	}
 	out.Body.Emit = randWhen(r)
 	out.Body.SkipEmpty = r.Intn(2) == 0
@@ -664,7 +684,13 @@ func runTier1(env *sysEnv, cfg runCfg, cursor string, traceSched bool) (obs runO
 	}
 	ctx := context.Background()
 	ctx = reqctx.WithTier2RequestParameters(ctx, reqctx.Tier2RequestParameters{BlockType: blockType, StateBundleSize: cfg.Seg, StateStoreURL: env.dir, StateStoreDefaultTag: "tag", MeteringConfig: "null://", MergedBlockStoreURL: "/tmp/verif-no-merged-blocks"})
-	ctx, cancel := context.WithTimeout(ctx, 20*time.Second)
+	// watchdog: a healthy request takes well under a second; under injected faults the real derr back-off (1 s, 1 s, 2 s, 3 s
+	// per retry) adds up, and a loaded machine stretches both: the budget is generous so that only a real hang reaches it
+	budget := 30 * time.Second
+	if remoteFactory != nil {
+		budget = 120 * time.Second
+	}
+	ctx, cancel := context.WithTimeout(ctx, budget)
 	obs.Panic = guard(func() { err = svc.TestBlocks(ctx, false, req, collect) })
 	cancel()
 	scheduler.VerifTrace = nil
@@ -814,6 +840,8 @@ func runSystem(a *args) error {
 		switch kind {
 		case "strategies":
 			// a sequence of requests over the same cache: cold production, warm production (other range), development
+			var prev runCfg
+			havePrev := false
 			paired := r.Intn(4) == 0 // first the source mapper alone, then the real output over the files that left
 			var first runCfg
 			for k := 0; k < 3+r.Intn(3); k++ {
@@ -834,6 +862,15 @@ func runSystem(a *args) error {
 					}
 					cfg.Stop = uint64(cfg.Start) + 1 + seg + uint64(r.Intn(10))
 					cfg.LibOK, cfg.Lib = true, cfg.Stop+uint64(r.Intn(10))
+				} else if k >= 1 && havePrev && r.Intn(3) == 0 {
+					// the previous production request again, starting strictly INSIDE one of the output files it left
+					cfg = prev
+					cfg.Label = fmt.Sprintf("strategies/%d", k)
+					cfg.Start = prev.Start + 1 + int64(r.Intn(int(seg)+2))
+					if uint64(cfg.Start) >= cfg.Stop {
+						cfg.Stop = uint64(cfg.Start) + 1 + uint64(r.Intn(6))
+					}
+					cfg.Workers = 1 + r.Intn(3)
 				} else if r.Intn(3) == 0 {
 					// another output module over the same cache directory (the graph, its stages and the files needed differ)
 					var maps []sysMod
@@ -852,6 +889,9 @@ func runSystem(a *args) error {
 					}
 				}
 				emitRun(a, env, cfg, "", true)
+				if cfg.Prod && (cfg.Out == "" || cfg.Out == "out") {
+					prev, havePrev = cfg, true
+				}
 			}
 		case "subsets":
 			// one complete run, then re-runs on random subsets of the files it left (plus crash debris)
@@ -1346,7 +1386,13 @@ func runForks(a *args, r *rand.Rand, env *sysEnv, seg uint64) {
 	orchestrator.VerifOnScheduler = func(s *scheduler.Scheduler) { s.WorkerPool.VerifSkipRampup() }
 	scheduler.VerifTrace = nil
 	ctx := reqctx.WithTier2RequestParameters(context.Background(), reqctx.Tier2RequestParameters{BlockType: blockType, StateBundleSize: cfg.Seg, StateStoreURL: env.dir, StateStoreDefaultTag: "tag", MeteringConfig: "null://", MergedBlockStoreURL: "/tmp/verif-no-merged-blocks"})
-	ctx, cancel := context.WithTimeout(ctx, 20*time.Second)
+	// watchdog: a healthy request takes well under a second; under injected faults the real derr back-off (1 s, 1 s, 2 s, 3 s
+	// per retry) adds up, and a loaded machine stretches both: the budget is generous so that only a real hang reaches it
+	budget := 30 * time.Second
+	if remoteFactory != nil {
+		budget = 120 * time.Second
+	}
+	ctx, cancel := context.WithTimeout(ctx, budget)
 	obs.Panic = guard(func() { err = svc.TestBlocks(ctx, false, req, collect) })
 	cancel()
 	schedMu.Unlock()
